@@ -296,13 +296,13 @@ def w_history(ctx, rng, i):
         if rng.random() < 0.25:
             s = ms.PointCloud(np.round(s.points * 3).astype(np.int64))
         if kind == "AlignmentSimilarity":
-            opts = {"rotation": bool(rng.random() < 0.6), "allow_mirror": bool(rng.random() < 0.5)}
+            opts = {"rotation": gen.flag(rng, 0.6), "allow_mirror": gen.flag(rng, 0.5)}
             if rng.random() < 0.5:
                 t = mt.AlignmentSimilarity(s, tg, opts["rotation"], opts["allow_mirror"])
             else:
                 t = mt.AlignmentSimilarity(s, tg, **opts)
         elif kind == "AlignmentRotation":
-            opts = {"allow_mirror": bool(rng.random() < 0.5)}
+            opts = {"allow_mirror": gen.flag(rng, 0.5)}
             t = mt.AlignmentRotation(s, tg, **opts)
         else:
             t = getattr(mt, kind)(s, tg)
@@ -388,7 +388,7 @@ def w_history(ctx, rng, i):
     for who in live:
         who.set_target(new_target(rng, who, kind, who.source.points.copy()))
         accepted += 1
-    ctx.count_case((kind, d, str(sorted(opts.items(), key=str)), tuple(shape)), nontrivial=accepted >= 1,
+    ctx.count_case((kind, d, str(sorted(((k_, bool(v_) if isinstance(v_, (bool, np.bool_, int)) else v_) for k_, v_ in opts.items()), key=str)), tuple(shape)), nontrivial=accepted >= 1,
                    sample={"kind": kind, "dims": d, "options": {k: str(v) for k, v in opts.items()}, "history": shape} if i < 8 else None)
 
 
